@@ -189,7 +189,8 @@ def _mk(rng, t, backend, algo, kind='', build=None, history=None):
         algo = 'CbO'
     return {'table': t, 'backend': backend, 'algo': algo, 'qseed': rng.randrange(10 ** 6), 'kind': kind,
             'onames': rng.sample(range(60), h), 'anames': rng.sample(range(60), w),
-            'build': build, 'bseed': rng.randrange(10 ** 6), 'warm': random_warm(rng),
+            'build': build, 'bseed': rng.randrange(10 ** 6), 'gseed': rng.choice(base.GSEEDS),
+            'warm': random_warm(rng),
             'label_order': rng.choice(LABEL_ORDERS), 'history': history or []}
 
 
